@@ -87,12 +87,12 @@ impl Report {
         let key = key.into();
         // one artefact per distinct key; count all
         self.add("violating_cases_total", 1);
-        if self.violations.iter().filter(|v| v.key == key).count() >= 3 {
+        if self.violations.iter().filter(|v| v.key == key).count() >= 1 {
             return;
         }
         let distinct: std::collections::BTreeSet<&str> =
             self.violations.iter().map(|v| v.key.as_str()).collect();
-        if distinct.len() >= 25 && !distinct.contains(key.as_str()) {
+        if distinct.len() >= 1000 && !distinct.contains(key.as_str()) {
             return;
         }
         self.violations.push(Violation {
